@@ -182,13 +182,13 @@ def check(case):
             ok3 = (-imb3 <= 0.015 * app3) if env == 'real' else (abs(imb3) <= 0.015 * app3)
             if ok3:
                 cls = ':insulated-thick-wire:self-term-uses-bare-radius'
-            elif stress and abs(imb3) <= 0.15 * app3:
+            elif stress and abs(imb3) <= 0.25 * app3:
                 # what remains after removing F-C08c is within the stress-class finding F-C01
-                cls = ':remaining-within-15-percent:' + '+'.join(sorted(set(stress))) + ':insulated-thick-wire:self-term-uses-bare-radius'
+                cls = ':remaining-within-25-percent:' + '+'.join(sorted(set(stress))) + ':insulated-thick-wire:self-term-uses-bare-radius'
         except Exception:
             pass
-    if not cls and stress and abs(imb) <= 0.15 * app:
-        cls = ':within-15-percent:' + '+'.join(sorted(set(stress)))
+    if not cls and stress and abs(imb) <= 0.25 * app:
+        cls = ':within-25-percent:' + '+'.join(sorted(set(stress)))
     if env == 'real':
         if -imb > margin:
             fails.append(('real-ground:more-out-than-in' + cls, detail))
